@@ -19,7 +19,7 @@ from pyvc.spec import And, Implies, Not, Or
 class add_to_cache:
     name = "dictionary.Dictionary._add_to_cache"
     func = "dateparser.languages.dictionary.Dictionary._add_to_cache"
-    props = ["C03", "C04", "C05", "C06"]  # every translation goes through these caches
+    props = ["C03", "C04", "C05", "C06", "C02"]  # every translation goes through these caches
 
     @staticmethod
     def cases():
@@ -39,7 +39,8 @@ class add_to_cache:
         from dateparser.languages.dictionary import Dictionary
         from pyvc.harness import make_settings
 
-        limit = inp.int("CACHE_SIZE_LIMIT", 0, 1000000)
+        # any int is a valid CACHE_SIZE_LIMIT (check_settings), negative ones included
+        limit = inp.int("CACHE_SIZE_LIMIT", -1000000, 1000000)
         st = make_settings(CACHE_SIZE_LIMIT=limit, _registry_key=case["current"])
         d = Dictionary.__new__(Dictionary)
         d._settings = st
